@@ -40,6 +40,7 @@ type gvar struct {
 	fcoq     map[string]string // struct variable: the Coq names that currently hold the fields that were assigned
 	ptr      bool              // struct parameter passed by pointer (assignments to its fields reach the caller)
 	seq      int               // declaration order (binder order of loop functions is declaration order, not name order)
+	asTuple  bool              // struct-typed element variable of a list loop: ONE Coq value (a tuple), fields by projection
 }
 
 var gvarSeq int
@@ -254,6 +255,11 @@ func (tr *gtTr) expr(e ast.Expr, env *venv) ex {
 		// a field of a struct parameter
 		if id, ok := x.X.(*ast.Ident); ok {
 			if v := env.lookup(id.Name); v != nil {
+				if v.asTuple && v.banned == "" {
+					// the element variable of a list loop over structs: one Coq value, fields by projection
+					tr.usedVars[v.coq] = true
+					return tr.project(ex{code: v.coq, typ: v.typ}, x.Sel.Name)
+				}
 				return tr.field(v, x.Sel.Name)
 			}
 		}
@@ -718,6 +724,14 @@ func (tr *gtTr) call(c *ast.CallExpr, env *venv) ex {
 	tr.inMutCall = false
 	if c.Ellipsis.IsValid() {
 		gtFail("call with ... is outside the subset")
+	}
+	// the reversed slice of a walk from the end (gotrans_norm.go: revRange)
+	if isIdent(c.Fun, gtRevName) && len(c.Args) == 1 {
+		a := tr.expr(c.Args[0], env)
+		if a.typ.kind != kSlice && a.typ != tBytes {
+			gtFail("walk from the end of a %s", a.typ.name)
+		}
+		return ex{binds: a.binds, code: "(rev " + a.code + ")", typ: a.typ}
 	}
 	// conversion
 	if len(c.Args) == 1 && tr.g.isTypeExpr(tr.p, tr.f, c.Fun, tr.isVar(env)) {
